@@ -1,6 +1,6 @@
-\* C11 leg A thorough: tables of 1..6 values, sampling 1,2,3,5, sorted requests of <= 4 values over 1..2n+1
+\* C11 leg A thorough: tables of 1..5 values, sampling 1,2,3,5, sorted requests of <= 4 values over 1..2n+1
 SPECIFICATION Spec
-CONSTANTS MaxN = 6
+CONSTANTS MaxN = 5
           Ks = {1, 2, 3, 5}
           MaxW = 4
 INVARIANTS AnswersLikeFullIndex AnswersAcceptable NeverOverAnswers
